@@ -49,6 +49,24 @@ UNITS.append(dict(id="gost_update", harness="alg_gost.c", entry="h_update", sour
 UNITS.append(dict(id="gost_finish", harness="alg_gost.c", entry="h_finish", sources=[G], enforce="p_crypto_hash_gost3411_finish",
                   replace=["pp_crypto_hash_gost3411_process", "pp_crypto_hash_gost3411_sum_256"], defines=["UNIT_FINISH"], canaries=2, timeout=900))
 UNITS.append(dict(id="gost_reset", harness="alg_gost.c", entry="h_reset", sources=[G], enforce=None, replace=[], defines=["UNIT_FINISH"], timeout=300, functions=["p_crypto_hash_gost3411_reset"]))
+# constructors: a new context of every variant equals its reset state (units shared with C18, where the allocation-failure exit matters)
+def _hash_ctx_units():
+    algs = [("md5", "pcryptohash-md5.c", "PHashMD5", "p_crypto_hash_md5"), ("sha1", "pcryptohash-sha1.c", "PHashSHA1", "p_crypto_hash_sha1"),
+            ("sha2_256", "pcryptohash-sha2-256.c", "PHashSHA2_256", "p_crypto_hash_sha2_256"), ("sha2_224", "pcryptohash-sha2-256.c", "PHashSHA2_256", "p_crypto_hash_sha2_224"),
+            ("sha2_512", "pcryptohash-sha2-512.c", "PHashSHA2_512", "p_crypto_hash_sha2_512"), ("sha2_384", "pcryptohash-sha2-512.c", "PHashSHA2_512", "p_crypto_hash_sha2_384"),
+            ("sha3_224", "pcryptohash-sha3.c", "PHashSHA3", "p_crypto_hash_sha3_224"), ("sha3_256", "pcryptohash-sha3.c", "PHashSHA3", "p_crypto_hash_sha3_256"),
+            ("sha3_384", "pcryptohash-sha3.c", "PHashSHA3", "p_crypto_hash_sha3_384"), ("sha3_512", "pcryptohash-sha3.c", "PHashSHA3", "p_crypto_hash_sha3_512"),
+            ("gost3411", "pcryptohash-gost3411.c", "PHashGOST3411", "p_crypto_hash_gost3411")]
+    fam = {"sha2_224": "p_crypto_hash_sha2_256", "sha2_384": "p_crypto_hash_sha2_512", "sha3_224": "p_crypto_hash_sha3", "sha3_256": "p_crypto_hash_sha3", "sha3_384": "p_crypto_hash_sha3", "sha3_512": "p_crypto_hash_sha3"}
+    out = []
+    for a, src, ty, new in algs:
+        f = fam.get(a, new)
+        out.append(dict(id="new_" + a, harness="../C18/misc2.c", entry="h_hash_ctx", sources=[src], enforce=None, replace=[], timeout=300, canaries=2,
+                        defines=["UNIT_HASH_CTX", 'ALG_SRC="%s"' % src, "ALG_TYPE=" + ty, "ALG_NEW=%s_new" % new, "ALG_FREE=%s_free" % f, "ALG_RESET=%s_reset" % f],
+                        functions=[new + "_new", f + "_free"], cbmc_flags=["--unwind", "100", "--unwinding-assertions"],
+                        bound="fixed-size initialisation loops fully unwound: complete, unwinding assertions on"))
+    return out
+UNITS += _hash_ctx_units()
 TECHNIQUE = "CBMC contracts on the real pcryptohash*.c: dispatcher history over call-log stubs; per algorithm the buffering/length/padding logic with the compression function replaced by a block-order contract"
 LEVEL_TEXT = ("Dispatcher (real pcryptohash.c, history over call-log stubs): standard digest length per type, right family, update forwarded whole, one finalisation between resets, "
               "repeatable reads, updates after a read ignored until reset, lower-case hex of the raw digest, no leak. Per family (MD5, SHA-1, SHA-2 224/256, SHA-2 384/512, SHA-3 x4, GOST) on the "
